@@ -209,10 +209,14 @@ def check_complete(case, ctx: Ctx) -> None:
 
 
 def _has_size_chop(case) -> bool:
+    """a chop that names a cell size, or asks to preserve one: on a strongly distorted block the size taken from the
+    average edge length can exceed the shortest edge, which the library rejects with a ValueError (C03's business)"""
     for ch in case["chops"]:
         secs = ch["args"] if isinstance(ch["args"], list) else [ch["args"]]
         for s in secs:
             if any(k.endswith("_frac") or k in ("start_size", "end_size") for k in s):
+                return True
+            if s.get("preserve", "c2c_expansion") != "c2c_expansion":
                 return True
     return False
 
